@@ -2637,6 +2637,30 @@ func (c *ChannelArbitrator) resolveContract(currentContract ContractResolver) {
 	log.Tracef("ChannelArbitrator(%v): attempting to resolve %T",
 		c.cfg.ChanPoint, currentContract)
 
+	// A resolver checkpoints its resolved state itself, and only after that
+	// is the contract removed from the log below. If we went down in
+	// between those two writes, the contract is handed to us already
+	// resolved. Finish the removal now, otherwise it would stay in the set
+	// of unresolved contracts forever and the channel would never be marked
+	// fully resolved.
+	if currentContract.IsResolved() {
+		log.Debugf("ChannelArbitrator(%v): contract %T was already "+
+			"resolved, removing it from the log", c.cfg.ChanPoint,
+			currentContract)
+
+		err := c.log.ResolveContract(currentContract)
+		if err != nil {
+			log.Errorf("unable to resolve contract: %v", err)
+		}
+
+		select {
+		case c.resolutionSignal <- struct{}{}:
+		case <-c.quit:
+		}
+
+		return
+	}
+
 	// Until the contract is fully resolved, we'll continue to iteratively
 	// resolve the contract one step at a time.
 	for !currentContract.IsResolved() {
